@@ -70,11 +70,11 @@ class HeapView:
 
 
 class Case:
-    def __init__(self, name, kind="return", exc=None, when=None, post=None, restype=None, result=None, post_assume=None):
+    def __init__(self, name, kind="return", exc=None, when=None, post=None, restype=None, result=None, post_assume=None, excluding=()):
         # post_assume: the same fact generalised over the free index constants of `post` (sound: the body is
         # verified for arbitrary values of those constants); used at call sites where a quantified hypothesis helps
         self.post_assume = post_assume
-        self.excluding = ()  # raise cases: exception classes (and their subclasses) this case does NOT cover
+        self.excluding = tuple(excluding)  # raise cases: exception classes (and their subclasses) this case does NOT cover
         self.name, self.kind, self.exc = name, kind, exc
         self.when = when or (lambda a, h: z3.BoolVal(True))
         self.post = post or (lambda a, h, h2, res: [])
@@ -170,6 +170,7 @@ class World:
         """variant: one of several contracts of the same function for different argument types
         (key: int | str | Gateway); each is verified on its own, call sites take the first that fits."""
         if variant is not None:
+            c.variant_name = variant
             key = f"{c.target}#{variant}"
             self.contracts[key] = c
             self.variants.setdefault(c.target, []).append(c)
